@@ -238,9 +238,60 @@ def r13c(ctx, P):
                "execute_suggest receives the whole SearchRequest", "%s:%s" % (es.file, es.line))
 
 
+def r13d(ctx, P):
+    rid = "R13.d"
+    ctx.rule(rid, "UNCONDITIONAL finish + merge: documents are fed to a segment's aggregation collector BEFORE the cursor test (R13.a), so "
+                  "whether that segment produced hits for this page says nothing about what its collector holds. In IndexReader::search "
+                  "(and search_vector_only) the call `collector.finish()` of each per-segment collector and the push of its result are "
+                  "controlled by nothing but the segment loop, error exits and the presence of the collector itself — in particular "
+                  "not by a match counter, the hit list or the cursor")
+    n = 0
+    for name in ("search", "search_vector_only"):
+        f = P.fn(N.READER + "::" + name)
+        if f is None:
+            continue
+        sl = Slice(f)
+        for b, t in f.calls():
+            if not callee_of(t).endswith("AggregationSegmentCollector>::finish") and not (callee_of(t).endswith("::finish") and "Aggregation" in callee_of(t)):
+                continue
+            n += 1
+            ctx.saw(f)
+            extra = []
+            from sa.rules.C25 import natural_loops
+            inner = [body for h, body in natural_loops(f) if b in body]
+            loop_body = min(inner, key=len) if inner else set(f.reachable())
+            for (a, succ) in f.control_deps_transitive(b):
+                ta = f.blocks[a]["term"]
+                if ta["k"] != "switch" or a not in loop_body:
+                    continue          # tests before the segment loop are the same for every segment
+                if any("ForLoop" in m or "WhileLoop" in m for m in (ta.get("macros") or [])) or _is_error_exit_test(f, a):
+                    continue
+                srcs = sl.sources(ta["on"])
+                # presence of the collector: the test is directly the discriminant of an Option<..Collector..>
+                opt_only, ty_ok = False, False
+                dl = op_local(ta["on"])
+                dfs = f.defs().get(dl, []) if dl is not None else []
+                if len(dfs) == 1 and dfs[0]["k"] == "assign" and dfs[0]["rv"]["k"] == "discr":
+                    opt_only = True
+                    ty = f.local_ty(dfs[0]["rv"]["place"]["l"])
+                    ty_ok = ty.startswith("core::option::Option<") and ("Aggregation" in ty or "Collector" in ty)
+                # request-level switches that are the same for every segment and page-independent: aggs present at all
+                req_level = bool(sl.fields(ta["on"]) & {"aggs"}) and not any(x[0] == "binop" for x in srcs)
+                if (opt_only and ty_ok) or req_level:
+                    continue
+                extra.append(Site(f, a))
+            ctx.ob(rid, "%s:%s:finish-unconditional" % (rid, name), not extra,
+                   "every segment's collector is finished and merged whenever it exists" if not extra else
+                   "the per-segment `finish()` at %s is skipped depending on the test at %s: documents are collected before the cursor "
+                   "test, so a segment without hits on this page can still hold counts — dropping it makes aggregations differ between pages"
+                   % (Site(f, b).loc(), extra[0].loc()), Site(f, b).loc())
+    ctx.floor(rid, n, 1, "per-segment collector.finish() in search")
+
+
 def run(ctx, progs):
     P = progs.get("default")
     r13a(ctx, P)
+    r13d(ctx, P)
     ctx.rule("R13.b", "GUARD: no pruning and no heap-gated collection while a collector is attached (= R09.b collector half and R09.c)")
     sub = type(ctx)(ctx.pid, ctx.tier)
     C09.r09b(sub, P)
